@@ -353,10 +353,12 @@ func (e *erasureCodingPartStore) getPartWithHealing(ctx context.Context, tx data
 func (e *erasureCodingPartStore) openPartReaders(ctx context.Context, tx database.Tx, partId partstore.PartId) ([]io.ReadCloser, []bool, error) {
 	readers := make([]io.ReadCloser, e.totalShards)
 	healShards := make([]bool, e.totalShards)
+	notFound := 0
 	for i := 0; i < e.totalShards; i++ {
 		rc, err := e.partStores[i].GetPart(ctx, tx, partId)
 		if err != nil {
 			if errors.Is(err, partstore.ErrPartNotFound) {
+				notFound++
 				readers[i] = nil
 				healShards[i] = true
 				continue
@@ -384,6 +386,11 @@ func (e *erasureCodingPartStore) openPartReaders(ctx context.Context, tx databas
 			continue
 		}
 		readers[i] = rc
+	}
+	if notFound == e.totalShards {
+		// No store holds a shard: the part does not exist (never written or
+		// deleted). That is not a part in need of healing.
+		return nil, nil, partstore.ErrPartNotFound
 	}
 	return readers, healShards, nil
 }
